@@ -123,7 +123,7 @@ impl Prop for C19 {
         tier.pick(80, 200)
     }
     fn cases(&self, tier: Tier) -> u32 {
-        tier.pick(24_000, 600_000)
+        tier.pick(800_000, 12_000_000)
     }
     fn watchdog_ms(&self) -> u64 {
         10_000
